@@ -476,6 +476,10 @@ func (g *encGen) acalls(d int) []encCall {
 func (g *encGen) outcome() encOutcome {
 	r := g.r
 	if g.fault() || r.Chance(1, 12) {
+		if r.Chance(1, 4) {
+			s := hx([]byte(nilIfaceStringerPanic)) // as a Stringer FIELD this becomes zap.Stringer(k, nil), see buildField
+			return encOutcome{Panic: &s}
+		}
 		if r.Bool() {
 			return encOutcome{Nil: true}
 		}
